@@ -551,11 +551,132 @@ func l4Program(r *Rand, lang syntax.LangVariant) (src string, kind string) {
 		src = l4Splice(r, lang, src)
 		kind = "gen+shape"
 	}
+	if r.Chance(10) {
+		// compound commands whose header carries a comment that is still pending when the nested
+		// list starts, with bodies that start on the opener's line and span lines
+		h := l4HeaderShape(r, lang)
+		switch r.Intn(4) {
+		case 0:
+			src = h + "\n" + src
+		case 1:
+			src = strings.TrimRight(src, "\n") + "\n" + h + "\n"
+		case 2:
+			src = "{\n" + h + "\n}\n" + src
+		default:
+			src = h + "\n"
+		}
+		kind = "gen+header"
+		if r.Chance(85) {
+			return // keep the layout the shape was drawn with
+		}
+	}
 	if r.Chance(40) {
 		src = layoutMutate(r, src)
 		kind = "gen+layout"
 	}
 	return
+}
+
+// l4HeaderShape draws one compound command (for / select / while / until / if / function / block /
+// subshell / case item) with
+//   - an optional comment where the printer still has it pending when the nested statement list
+//     begins: after the loop header or condition, between a function name and its `{`, or right
+//     after the opening keyword (`do`, `then`, `else`, `{`, `(`);
+//   - a nested list of one statement (sometimes two) that starts on the opener's line or on the
+//     next one and may span several lines: a quoted string with a newline, escaped-newline
+//     continuations of arguments and redirections, a command substitution over two lines, a
+//     binary command broken after its operator, a here-document;
+//   - the closing keyword on the statement's last line or on a line of its own.
+// These are the inputs of Printer.nestedStmts' decision whether the list starts on its own line.
+func l4HeaderShape(r *Rand, lang syntax.LangVariant) string {
+	bashLike := lang == syntax.LangBash || lang == syntax.LangBats || lang == syntax.LangZsh
+	w := func() string { return []string{"a", "b", "foo", "x1", "bar"}[r.Intn(5)] }
+	com := func() string {
+		if r.Chance(85) {
+			return " #" + []string{" c", "c", " a b", ""}[r.Intn(4)]
+		}
+		return ""
+	}
+	hdoc := false
+	stmt := func() string {
+		switch r.Intn(9) {
+		case 0:
+			return w() + " \"x\n" + w() + "\""
+		case 1:
+			return w() + " 'x\n" + w() + "'"
+		case 2:
+			return w() + " \\\n " + w()
+		case 3:
+			return w() + " >" + w() + " \\\n 2>" + w()
+		case 4:
+			return w() + " $(" + w() + "\n" + w() + ")"
+		case 5:
+			return w() + " &&\n " + w()
+		case 6:
+			return w() + " |\n " + w()
+		case 7:
+			hdoc = true
+			return "cat <<EOF\n" + w() + "\nEOF"
+		}
+		return w() + " " + w()
+	}
+	// body(closer): the nested list and the closing keyword
+	body := func(lead, closer string, semi bool) string {
+		st := stmt()
+		if r.Chance(12) {
+			st = w() + "; " + st
+		}
+		if lead == "" {
+			lead = []string{" ", " ", "\n", "\n\t"}[r.Intn(4)]
+		}
+		end := "\n" + closer
+		if !hdoc && r.Chance(60) {
+			if semi {
+				end = "; " + closer
+			} else {
+				end = " " + closer
+			}
+		}
+		return lead + st + end
+	}
+	n := 12
+	if bashLike || lang == syntax.LangMirBSDKorn {
+		n = 15
+	}
+	switch r.Intn(n) {
+	case 0:
+		return "for i in 1 2" + com() + "\ndo" + body("", "done", true)
+	case 1:
+		return "while " + w() + com() + "\ndo" + body("", "done", true)
+	case 2:
+		return "until " + w() + " " + w() + com() + "\ndo" + body("", "done", true)
+	case 3:
+		return w() + "()" + com() + "\n{" + body("", "}", true)
+	case 4:
+		return "if " + w() + com() + "\nthen" + body("", "fi", true)
+	case 5:
+		return "if " + w() + "; then" + com() + "\n" + body("\t", "fi", true)
+	case 6:
+		return "while " + w() + "; do" + com() + "\n" + body("\t", "done", true)
+	case 7:
+		return "{" + com() + "\n" + body("\t", "}", true)
+	case 8:
+		return "(" + com() + "\n" + body("\t", ")", false)
+	case 9:
+		return "if " + w() + "; then " + w() + "; else" + com() + "\n" + body("\t", "fi", true)
+	case 10:
+		return "case x in\na)" + com() + "\n" + body("\t", ";;\nesac", false)
+	case 11:
+		return "for i" + com() + "\ndo" + body("", "done", true)
+	case 12:
+		return "select i in 1 2" + com() + "\ndo" + body("", "done", true)
+	case 13:
+		if lang == syntax.LangMirBSDKorn {
+			return "function f" + com() + "\n{" + body("", "}", true)
+		}
+		return "for ((i = 0; i < 2; i++))" + com() + "\ndo" + body("", "done", true)
+	}
+	return "function f" + com() + "\n{" + body("", "}", true)
 }
 
 // l4Splice adds one statement built from a table of layout-sensitive shapes to src: before it,
@@ -1127,6 +1248,54 @@ func c01Excluded(tc l4Case, f *syntax.File, sh *shape) string {
 		return false
 	}) {
 		return "C01-binnext-heredoc-nested"
+	}
+	// C01-dashhdoc-nested-string-indent: with tab indentation the body of a <<- here-document is
+	// re-indented line by line, also the lines *inside* a quoted string, an escaped newline or a
+	// here-document nested in a command substitution / parameter expansion of the body: the tabs
+	// land inside the string (or in front of the inner delimiter) and are not stripped there.
+	if o.Indent == 0 && !o.Minify && sh.any(func(n syntax.Node) bool {
+		r, ok := n.(*syntax.Redirect)
+		if !ok || r.Op != syntax.DashHdoc || r.Hdoc == nil {
+			return false
+		}
+		for _, part := range r.Hdoc.Parts {
+			if _, isLit := part.(*syntax.Lit); isLit {
+				continue
+			}
+			if anyBelow(part, func(m syntax.Node) bool {
+				switch x := m.(type) {
+				case *syntax.SglQuoted:
+					return strings.Contains(x.Value, "\n")
+				case *syntax.Lit:
+					return strings.Contains(x.Value, "\n")
+				case *syntax.Redirect:
+					return x.Hdoc != nil
+				}
+				return false
+			}) {
+				return true
+			}
+		}
+		return false
+	}) {
+		return "C01-dashhdoc-nested-string-indent"
+	}
+	// C01-hdoc-delim-tab: an escaped tab (vertical tab, form feed) in an unquoted here-document
+	// delimiter: the closing delimiter line is written with the raw control character, which
+	// text/tabwriter turns into a blank, so the body is never closed.
+	if sh.any(func(n syntax.Node) bool {
+		r, ok := n.(*syntax.Redirect)
+		if !ok || (r.Op != syntax.Hdoc && r.Op != syntax.DashHdoc) || r.Word == nil {
+			return false
+		}
+		for _, part := range r.Word.Parts {
+			if l, ok := part.(*syntax.Lit); ok && strings.ContainsAny(l.Value, "\t\v\f") {
+				return true
+			}
+		}
+		return false
+	}) {
+		return "C01-hdoc-delim-tab"
 	}
 	// C01-dashhdoc-escaped-newline: an escaped newline inside the body of an unquoted <<-
 	// here-document is re-created by the printer, and with tab indentation the continuation line
